@@ -228,7 +228,7 @@ def canon(bm, led, sid):
             freeze(led['burst_kwargs']), freeze(led['find_extrema_kwargs']), table_hash(bm.df_features), sid)
 
 
-DEPTH = {'quick': 3, 'thorough': 5}
+DEPTH = {'quick': 3, 'thorough': 4}
 _TIER = ['quick']
 
 
